@@ -120,7 +120,7 @@ def fill(method, H, W, cap=60, block=(), max_paths=20000, time_cap=None, prefix=
             EX.assume(z3.ULT(e.t, z3.BitVecVal(4096, 16)))
             EX.assume((e.t & 768) != 768)                         # never both occlusion and mismatch (C07)
             EX.assume(z3.Or((e.t & 768) == 0, (e.t & 0b11000011) == 0))   # cross-checking only flags previously valid pixels
-            EX.assume((e.t & 0b110000) == 0)                      # no filled bits before filling
+            # bits 4/5 may already be set: a second validation step re-examines pixels filled by the first one (they are valid again)
         d0 = d.copy(); m0 = m.copy()
         ds = xr.Dataset({"disparity_map": (["row", "col"], d), "validity_mask": (["row", "col"], m)}, coords={"row": np.arange(H), "col": np.arange(W)})
         ds.attrs = {"offset_row_col": offset}
@@ -161,7 +161,7 @@ def fill(method, H, W, cap=60, block=(), max_paths=20000, time_cap=None, prefix=
                     allv = [S.xlift(d0._a[s_]).val for s_ in valid_px]
                     flag_ok = z3.And((mo_t & 768) == 0, (mo_t & (1 << newbit)) != 0,
                                      (mo_t & ~z3.BitVecVal(768 | 48, 16)) == (mi_t & ~z3.BitVecVal(768 | 48, 16)),
-                                     (mo_t & 48) == (1 << newbit))
+                                     (mo_t & 48) == ((mi_t & 48) | (1 << newbit)))      # flags are independent bits: earlier 'filled' bits stay
                     props.append(("filled-flag-swap[%d,%d]" % (r, c), flag_ok))
                     props.append(("filled-finite-within-valid-range[%d,%d]" % (r, c), z3.And(o.tag == 0, z3.Or(*[o.val >= v for v in allv]), z3.Or(*[o.val <= v for v in allv]))))
                     if expr[0] == 'seclow':
@@ -236,7 +236,7 @@ def replay(cex):
             else:
                 _, newbit, expr = w
                 exp = ev_np(expr, d0)
-                okflag = (int(mo[r, c]) & 768) == 0 and (int(mo[r, c]) & 48) == (1 << newbit) and (int(mo[r, c]) & ~(768 | 48)) == (int(m0[r, c]) & ~(768 | 48))
+                okflag = (int(mo[r, c]) & 768) == 0 and (int(mo[r, c]) & 48) == ((int(m0[r, c]) & 48) | (1 << newbit)) and (int(mo[r, c]) & ~(768 | 48)) == (int(m0[r, c]) & ~(768 | 48))
                 if not okflag:
                     bad.append('pixel (%d,%d): flags %d -> %d, expected bit %d swap' % (r, c, m0[r, c], mo[r, c], newbit))
                 if not np.isfinite(do[r, c]) or not (min(allv) <= do[r, c] <= max(allv)):
